@@ -7,7 +7,7 @@
 (* neither mask nor fake a failure.  TLC also checks here that an          *)
 (* acceptable answer always EXISTS (the property is satisfiable).          *)
 (***************************************************************************)
-EXTENDS Suffix, TLC, Json
+EXTENDS Suffix, Vocab, TLC, Json
 
 CONSTANTS SegsA, SegsB, Fam, Mode      \* Mode: "main" | "pct" (small vocabularies of percent-encoded spellings)
 
@@ -54,7 +54,16 @@ PickDeep == /\ mode = "start" /\ Mode = "main"
             /\ \E pr \in DeepPairs : a' = pr[1] /\ b' = pr[2] /\ mode' = "deep"
                   /\ PrintT(ToJson([k |-> "rel", fam |-> "both", a |-> pr[1], b |-> pr[2]]))
                   /\ PrintT(ToJson([k |-> "suffix", fam |-> "both", what |-> "ref", v |-> pr[1], p |-> pr[2]]))
-Next == PickB \/ PickA \/ PickP \/ PickV \/ PickDeep
+\* scheme names and port numbers that mean something outside RFC 3986 (default ports): suffix and
+\* relativisation must compare authorities as the library's == does, whatever the scheme
+KnownUri(s, au, p) == s \o <<58, 47, 47>> \o au \o p
+KnownPairs == {<<KnownUri(s, a1, <<47, 97, 47, 98, 63, 113, 35, 102>>), KnownUri(s, a2, <<47, 97>>)>> :
+                 s \in VKnownScheme, a1 \in VKnownAuth, a2 \in VKnownAuth}
+PickKnown == /\ mode = "start" /\ Mode = "main"
+             /\ \E pr \in KnownPairs : a' = pr[1] /\ b' = pr[2] /\ mode' = "deep"
+                   /\ PrintT(ToJson([k |-> "rel", fam |-> "both", a |-> pr[1], b |-> pr[2]]))
+                   /\ PrintT(ToJson([k |-> "suffix", fam |-> "both", what |-> "ref", v |-> pr[1], p |-> pr[2]]))
+Next == PickB \/ PickA \/ PickP \/ PickV \/ PickDeep \/ PickKnown
 
 \* C15 is satisfiable: a itself always is an acceptable answer (a full URI is a reference that
 \* resolves to itself up to dot-segment removal)
